@@ -127,7 +127,7 @@ def run(tier):
                 n_sites += 1
                 c = t["callee"]
                 p = c["path"] if c else "<indirect>"
-                okc = c is not None and (p in ALLOWED_CALLEES or p.startswith(ALLOWED_PREFIX) or (c["resolved"] and p in prog.bodies))
+                okc = c is not None and (p in ALLOWED_CALLEES or p.startswith(ALLOWED_PREFIX) or (c["resolved"] and prog.is_ws(p)))
                 rep.ob("order-invariance", "%s calls %s" % (k, p), okc, "callee outside the comparison whitelist", "%s:%d" % (t["span"]["file"], t["span"]["line"]))
     rep.analysed["call_sites"] = n_sites
     rep.floor("comparison methods", len(methods), 12)
